@@ -182,8 +182,9 @@ def run(ctx: Ctx):
     # unbounded part: ANY JSON value (any shape / size / nesting) on every parser function, parse_element, process;
     # the out-event rule for events with any number of parameters
     from props import parse_unbounded
-    parse_unbounded.run_any_json(ctx)
-    parse_unbounded.run_out_event_rule(ctx)
+    from props.gen_unbounded import guarded
+    guarded(ctx, 'any-json', parse_unbounded.run_any_json)
+    guarded(ctx, 'out-event-rule', parse_unbounded.run_out_event_rule)
     jobs = []
     Nplain = lambda k: k
     docs = D.documents()
